@@ -103,9 +103,15 @@ def standard_probes(K, target=None, factor=20, extra=()):
     n = max(200, factor * K)
     pts = list(np.linspace(0.0, 1.0, n, endpoint=False))
     pts += list((np.arange(n) + 0.37) / n)
+    # alias-type samplers split [0,1) into K columns, each with (at most) one break: a piece at the start or at the end of a
+    # column can sit between two equal neighbours, so every column boundary gets a geometric ladder of probes on both sides
+    # (any end/start piece wider than ~1e-16 contains one of them; narrower ones weigh less than K * 1e-16 in total)
+    ladder = [10.0 ** -e for e in range(3, 18)] + [0.5, 0.25, 0.1, 0.03, 0.01, 0.003]
     for k in range(K + 1):
         x = k / K
         pts += [x, _prev(x), _next(x)]
+        for w in ladder:
+            pts += [x - w / K, x + w / K]
     if target is not None:
         cs = np.cumsum(np.asarray(target, dtype=float))
         for c in cs:
